@@ -199,7 +199,7 @@ Mon_Concurrent == obs.kind = "CObs" =>
                /\ Len(obs.ids) <= obs.e - obs.i + 1
                /\ x >= 1 => Len(obs.ids) >= Min(obs.e - a.first + 1, obs.lo) - x + 1
                /\ (obs.err = "") = (Len(obs.ids) = obs.e - obs.i + 1)
-          [] obs.what = "SubInit" -> IF obs.inst = None THEN obs.lo = 0
+          [] obs.what = "SubInit" -> IF obs.inst = None THEN (obs.lo = 0 \/ obs.hi > obs.lo)   \* Put drains, then sends: transiently empty
                                       ELSE y >= obs.lo /\ y >= 1 /\ y <= obs.hi /\ y <= n /\ obs.id = a.hist[y].id
           [] obs.what = "SubRecv" -> y >= 1 /\ y <= obs.hi /\ y <= n /\ obs.id = a.hist[y].id /\ obs.inst > obs.prev
           [] obs.what = "SubFinal" -> n > 0 /\ obs.id = a.hist[n].id
